@@ -193,6 +193,20 @@ bool mutate(Built &b, const J &mut)
     if (!e) {
         return false;
     }
+    if (op == "dupSibling") { // a second, identical child next to component t (same name: only the API can build this)
+        if (!comp) {
+            return false;
+        }
+        auto copy = comp->clone();
+        auto parentComp = std::dynamic_pointer_cast<Component>(comp->parent());
+        if (parentComp) {
+            parentComp->addComponent(copy);
+        } else {
+            b.model->addComponent(copy);
+        }
+        b.extra.push_back(copy);
+        return true;
+    }
     if (op == "attachLib") {
         if (!imp) {
             return false;
@@ -433,13 +447,39 @@ static void equality(const J &sc, Emitter &out)
     const J &mut = sc["mut"];
     J ev = J::obj();
     ev.set("e", "equals").set("fv", sc["fv"]).set("mut", mut);
+    if (sc["pre"].k == J::OBJ) { // a preparation applied to both sides
+        bool ok = mutate(a, sc["pre"]) && mutate(b, sc["pre"]);
+        ev.set("pre", sc["pre"]).set("preApplied", J(ok));
+    }
     Chain ca = chainOf(a, mut["t"]);
     Chain cb = chainOf(b, mut["t"]);
     ev.set("copy", eqPairs(ca, cb));
     ev.set("refl", eqPairs(ca, ca));
+    // a change of a units definition is also a change of every variable that holds that units object (and of its component)
+    Chain ua, ub;
+    std::string tk = mut["t"]["k"].str();
+    if (tk == "units" || tk == "unit") {
+        auto ma = a.unitsAt[static_cast<size_t>(mut["t"]["u"].num())];
+        for (size_t ci = 0; ci < a.varAt.size(); ++ci) {
+            for (size_t vi = 0; vi < a.varAt[ci].size(); ++vi) {
+                if (a.varAt[ci][vi]->units() == ma && ma != nullptr) {
+                    ua.levels.push_back(a.varAt[ci][vi]);
+                    ub.levels.push_back(b.varAt[ci][vi]);
+                    ua.kinds.push_back("var");
+                    ub.kinds.push_back("var");
+                    ua.levels.push_back(a.compAt[ci]);
+                    ub.levels.push_back(b.compAt[ci]);
+                    ua.kinds.push_back("comp");
+                    ub.kinds.push_back("comp");
+                }
+            }
+        }
+    }
+    ev.set("usersCopy", eqPairs(ua, ub));
     bool applied = mutate(b, mut);
     ev.set("applied", J(applied));
     ev.set("mutated", eqPairs(ca, cb));
+    ev.set("usersMutated", eqPairs(ua, ub));
     // nothing compares equal to null or to an entity of another kind
     ev.set("vsNull", J(a.model->equals(nullptr)));
     out.emit(ev);
